@@ -167,6 +167,16 @@ End Blocks.
 
 Definition thematic_config (cfg : pconfig) : bool := thematic_first (cfg_block cfg).
 
+Lemma strip_tline c n : (c = 45 \/ c = 95 \/ c = 42) -> strip_set [10] (tline c n) = repeat c (S (S (S n))).
+Proof.
+  intros Hc. unfold tline, strip_set, strip_by. set (P := fun x : Z => mem x [10]).
+  assert (Pc : P c = false) by (unfold P; destruct Hc as [->|[->| ->]]; reflexivity).
+  assert (L : lstrip_by P (repeat c (S (S (S n))) ++ [10]) = repeat c (S (S (S n))) ++ [10]) by (cbn [repeat app lstrip_by]; rewrite Pc; reflexivity).
+  rewrite L. unfold rstrip_by. rewrite rev_app_distr, rev_repeat. change (rev [10]) with [10].
+  change ([10] ++ repeat c (S (S (S n)))) with (10 :: c :: repeat c (S (S n))). cbn [lstrip_by]. replace (P 10) with true by reflexivity. rewrite Pc.
+  change (c :: repeat c (S (S n))) with (repeat c (S (S (S n)))). apply rev_repeat.
+Qed.
+
 Theorem thematic_break_parses cfg c n : (c = 45 \/ c = 95 \/ c = 42) -> thematic_config cfg = true ->
   parse_lines cfg [tline c n] = (Document [ThematicBreak (repeat c (S (S (S n))))], [], [1]).
 Proof.
